@@ -86,7 +86,8 @@ Proof.
   - cbv zeta in H. destruct (valid_dev r (bcast_dev dst idev)) eqn:V; [|injection H as <- <-; apply NR_refl]. apply valid_dev_range in V.
     eapply osend_nr; [|exact H]. intros Y r2 ev2 E. eapply send_rx_list_nr; [exact E|lia|apply NR_refl].
   - destruct (negb _); [injection H as <- <-; apply NR_refl|]. eapply send_heartbeat_api_nr; [exact H|lia].
-  - destruct (valid_dev r idev) eqn:V; [|injection H as <- <-; apply NR_refl]. apply valid_dev_range in V. cbv zeta in H.
+  - destruct (is_active_node (rn r)); cbn [andb] in H; [|injection H as <- <-; apply NR_refl].
+    destruct (valid_dev r idev) eqn:V; [|injection H as <- <-; apply NR_refl]. apply valid_dev_range in V. cbv zeta in H.
     eapply osend_nr; [|exact H]. intros Y r2 ev2 E. cbv beta zeta in E.
     destruct (rsend (chk_dev Y idev) _ idev) as [[r3 ev3] ok] eqn:ES. injection E as <- <-.
     eapply rsend_nr; [exact ES|lia|nr].
